@@ -23,6 +23,37 @@ COMPOSITES = {
 }
 
 
+def rule_flat_map_dispatch(repo: Repo, rep: Report) -> None:
+    """flat_map / flat_map_indexed: a callable argument is THE mapper (by its role: plain vs indexed); anything else is the
+    inner sequence every element maps to."""
+    FM = "reactivex/operators/_flatmap.py"
+    for q, role in (("flat_map_", "mapper"), ("flat_map_indexed_", "mapper_indexed")):
+        f = repo.fn(FM, q)
+        par = f.params[1]
+        calls = [s for s in sites(f) if isinstance(s.node, ast.Call) and call_name(s.node) == "_flat_map_internal"]
+        ok_pos = ok_neg = False
+        for s in calls:
+            kw = {k.arg: k.value for k in s.node.keywords}
+            is_callable = [p_ for e, p_ in s.ctx.guards if isinstance(e, ast.Call) and call_name(e) == "callable" and e.args and u(e.args[0]) == par]
+            if is_callable == [True]:
+                ok_pos = set(kw) == {role} and u(kw[role]) == par
+            elif is_callable == [False]:
+                v = kw.get("mapper")
+                ok_neg = set(kw) == {"mapper"} and isinstance(v, ast.Lambda) and u(v.body) == par
+        rep.ob("J3-delegations", f, f"{q}: callable({par}) -> _flat_map_internal({role}={par}); else -> mapper=lambda _: {par}", ok_pos and ok_neg and len(calls) == 2,
+               f"{q} does not hand a callable argument on as `{role}` and a non-callable one as the constant inner sequence: the mapper is "
+               f"called with the wrong arity, or the mapper function itself is merged as if it were the inner sequence")
+    fi = repo.fn(FM, "_flat_map_internal")
+    proj = fi.child("projection")
+    ok = False
+    if proj is not None:
+        src_ = " ".join(u(n_) for n_ in proj.direct_nodes() if isinstance(n_, ast.IfExp))
+        a_, b_ = proj.params[0], proj.params[1]
+        ok = f"mapper({a_}) if mapper" in src_ and f"mapper_indexed({a_}, {b_}) if mapper_indexed" in src_
+    rep.ob("J3-delegations", fi, "projection: mapper(x) if mapper else mapper_indexed(x, i) if mapper_indexed", ok,
+           "the projection does not call the plain mapper with the element and the indexed mapper with (element, index)")
+
+
 def check(repo: Repo, rep: Report) -> None:
     rep.explanation = (
         "Structural clauses of merge_ / merge_all_: (1) typestate signatures equal the confirmed reference (" + TC.LEGEND +
@@ -38,6 +69,7 @@ def check(repo: Repo, rep: Report) -> None:
     rep.rule("J1-completion-join", "downstream completion depends on outer-stopped and no-active-inner", floor=4)
     rep.rule("J2-max-concurrent", "inner subscription bounded by max_concurrent; FIFO queue of waiting inners", floor=4)
     rep.rule("J3-delegations", "flat_map* / merge / concat_map delegations", floor=5)
+    rule_flat_map_dispatch(repo, rep)
     for key in KEYS:
         TC.check_operator(repo, rep, "K1-signature", key,
                           lambda k, slot: "Merging must pass inner elements and the first error straight through and complete only "
